@@ -94,8 +94,10 @@ func runC20(e *Env) {
 		inGaps[i] = drawGap(e, d)
 	}
 	outGaps := make([]time.Duration, nOut)
+	badWrites := make([]bool, nOut)
 	for i := range outGaps {
 		outGaps[i] = drawGap(e, d)
+		badWrites[i] = e.P(4) == 3
 	}
 	tail := drawGap(e, d) + d/4
 	if slowAt > 0 {
@@ -160,7 +162,11 @@ func runC20(e *Env) {
 				} else {
 					e.Step()
 				}
-				rig.Ch.Write([]byte{byte(i + 1), 7, 7})
+				if swallow && badWrites[i] {
+					rig.Ch.Write(unsupportedMsg{i}) // fails at the head (exception, consumed): the write still passed the idle handler
+				} else {
+					rig.Ch.Write([]byte{byte(i + 1), 7, 7})
+				}
 			}
 			finish()
 		})
